@@ -452,6 +452,59 @@ func c10ViaIO(addr uint32, first, l int) (sig, what string) {
 	return "", ""
 }
 
+// c10LiveCase: the reader is opened BEFORE the write (an editor keeps a reader on the title while it patches
+// it): Pre bytes are read, then WLen bytes are written at Addr+WOff through a writer, then RLen bytes are
+// read -- they are the bytes the image holds NOW at the reader's position.
+type c10LiveCase struct {
+	LiveBanks int    `json:"live_banks"`
+	Addr      uint32 `json:"addr"`
+	Pre       int    `json:"pre"`
+	WOff      int    `json:"w_off"`
+	WLen      int    `json:"w_len"`
+	RLen      int    `json:"r_len"`
+}
+
+func c10LiveRun(c c10LiveCase) (sig, what string) {
+	defer func() {
+		if x := recover(); x != nil {
+			sig, what = "unexplained:reader-opened-before-write", fmt.Sprintf("%+v: panic %v", c, x)
+		}
+	}()
+	img := c10Image(c.LiveBanks)
+	rom, err := snes.NewROM("t", img)
+	if err != nil {
+		return "bad-case", err.Error()
+	}
+	start := int(c.Addr>>16<<15 | c.Addr&0x7FFF)
+	end := int(c.Addr>>16<<15) + 0x8000
+	rd := rom.BusReader(c.Addr)
+	pos := start
+	if c.Pre > 0 {
+		n, _ := rd.Read(make([]byte, c.Pre))
+		pos += n
+	}
+	p := make([]byte, c.WLen)
+	for i := range p {
+		p[i] = byte(0x50 + i)
+	}
+	if n, e := rom.BusWriter(c.Addr + uint32(c.WOff)).Write(p); n != c.WLen || e != nil {
+		return "", "" // the write itself is judged by the other facets
+	}
+	got := make([]byte, c.RLen)
+	n, e := rd.Read(got)
+	if n < 0 || n > c.RLen {
+		n = 0
+	}
+	want := c.RLen
+	if pos+want >= end {
+		return "", "" // reads reaching the end of the bank are judged by the window facet (and its recorded finding)
+	}
+	if n != want || (e != nil && n > 0 && e != io.EOF) || !bytes.Equal(got[:n], rom.Contents[pos:pos+n]) {
+		return "unexplained:reader-opened-before-write", fmt.Sprintf("%+v: a reader opened at $%06x before %d bytes were written at $%06x returns (%d,%v) % x; the image holds % x there now", c, c.Addr, c.WLen, c.Addr+uint32(c.WOff), n, e, got[:n], rom.Contents[pos:pos+want])
+	}
+	return "", ""
+}
+
 type c10Swap struct {
 	SwapBanks int    `json:"swap_banks"`
 	Addr      uint32 `json:"addr"`
@@ -523,6 +576,14 @@ func replayC10(raw json.RawMessage) (string, error) {
 		sig, what := c10ViaIO(ic.Addr, ic.First, ic.Len)
 		if sig == "" {
 			return "writes through io.WriteString / io.Copy are all-or-error and stay in the window", nil
+		}
+		return what, fmt.Errorf("%s", sig)
+	}
+	var lc c10LiveCase
+	if json.Unmarshal(raw, &lc) == nil && lc.LiveBanks > 0 {
+		sig, what := c10LiveRun(lc)
+		if sig == "" {
+			return "the reader returns what the image holds at the time of the read", nil
 		}
 		return what, fmt.Errorf("%s", sig)
 	}
@@ -743,6 +804,25 @@ func runC10(r *report.Run) {
 	}
 	transitions += 3 * ni
 	r.Set("writes_and_reads_through_io_helpers", ni)
+	// a reader opened before the image is written through a writer
+	var nl int64
+	for _, addr := range []uint32{0x008000, 0x01C000, 0x00FFF0, 0x018001} {
+		for _, pre := range []int{0, 3} {
+			for _, woff := range []int{0, 2, 5} {
+				for _, wl := range []int{1, 8} {
+					for _, rl := range []int{4, 16, 40} {
+						nl++
+						c := c10LiveCase{2, addr, pre, woff, wl, rl}
+						if sig, what := c10LiveRun(c); sig != "" {
+							r.Violation(sig, what, c)
+						}
+					}
+				}
+			}
+		}
+	}
+	transitions += 3 * nl
+	r.Set("reader_opened_before_write", nl)
 	// the same op sequences with two READERS, interleaved vs alone
 	var nr int64
 	par.For(len(multi), func(_, i int) {
